@@ -16,6 +16,29 @@ NOT_DECIDED = "TWAP values themselves (C18); numeric exactness beyond formula id
 VAMM = "margined_vamm"
 
 
+def is_last_of_list(ix, v):
+    """v is the LAST element of a stored vAMM-map's cumulative_premium_fractions list: list[len(list) - 1] or list.last()"""
+    vi = ix.inline(v)
+    while tag(vi) in ("unwrap", "ok") or (tag(vi) == "call" and str(payload(vi)[0]).split("::")[-1] in ("copied", "cloned", "clone") and kids(vi)):
+        vi = ix.inline(kids(vi)[0])
+    if tag(vi) != "call" or not kids(vi):
+        return False
+    nm = str(payload(vi)[0]).split("::")[-1]
+    lst = ix.inline(kids(vi)[0])
+
+    def is_list(x):
+        return tag(x) == "field" and payload(x)[0] == "cumulative_premium_fractions" and guards.loaded_item(ix, kids(x)[0], ENG) == VMAP
+    if not is_list(lst):
+        return False
+    if nm == "last":
+        return True
+    if nm == "index" and len(kids(vi)) == 2:
+        i = ix.inline(kids(vi)[1])
+        return tag(i) == "op" and payload(i)[0] == "sub" and len(kids(i)) == 2 and tag(kids(i)[1]) == "int" and payload(kids(i)[1])[0] == "1" \
+            and tag(ix.inline(kids(i)[0])) == "op" and payload(ix.inline(kids(i)[0]))[0] == "len" and ix.inline(kids(ix.inline(kids(i)[0]))[0]) == lst
+    return False
+
+
 def run(ctx):
     ix = ctx.ix
     w = ctx.world
@@ -357,9 +380,8 @@ def run(ctx):
                 if not any(sym.field(P, "vamm") in set(sym.walk(a)) or a == ix.inline(sym.field(P, "vamm")) for a in args):
                     return False
                 outs = ix.ok_paths(t)
-                rets = [sym.show(p.ret, 8) for p in outs]
-                return bool(outs) and all(("cumulative_premium_fractions" in r and "Index::index" in r) or N(ix, sym.unwrap(p.ret)) == ("pos", ("int", 0)) for r, p in zip(rets, outs)) \
-                    and any("Index::index" in r for r in rets)
+                return bool(outs) and all(is_last_of_list(ix, sym.unwrap(p.ret)) or N(ix, sym.unwrap(p.ret)) == ("pos", ("int", 0)) for p in outs) \
+                    and any(is_last_of_list(ix, sym.unwrap(p.ret)) for p in outs)
             latest = hole("latest", cum_query)
             pl = lambda name: hole("position." + name, lambda v, name=name: ix.inline(v) == ix.inline(sym.field(P, name)))
             FUND = ("idiv", ("imul", ("isub", latest, pl("last_updated_premium_fraction")), pl("size")), ("pos", em.cfg_leaf("decimals")))
